@@ -31,18 +31,23 @@ KERNEL_SAMPLE = {"quick": 200, "thorough": 2000}
 KERNEL_MAXLEN = 120
 MANIFEST = dict(
     text="Coq theorems over a hand-written model of Number::parse/Display/radix printers and the two procedures "
-         "(after two fix: commits): digit strings invert in every radix >= 2, every exact number round-trips through "
-         "number->string/string->number in radix 2 8 10 16 with its exactness, a printed spelling used as a #b/#o/#d/#x "
-         "literal denotes what string->number gives, finite doubles round-trip in radix 10 (about the executable "
-         "specification of std's shortest formatting and correctly rounded parsing), radix outside 2..36 is an error; "
-         "tied to /repo by a 3-way differential (impl / extracted model / vm_compute) over palettes x radices.",
+         "(after two fix: commits): digit strings invert in every radix >= 2; every exact number (fixnum, bignum, reduced "
+         "rational, both signs) round-trips through number->string/string->number in radix 2 8 10 16 with its exactness; a "
+         "spelling scanned as one token after #b/#o/#d/#x denotes what string->number gives, and every printed exact "
+         "spelling is such a literal for the number itself; a radix outside 2..36 is an error, never a panic; the printed "
+         "form of a finite double always reaches the float parser. Finite doubles round-trip in radix 10 RELATIVE TO two "
+         "statements about the executable specification of std's shortest formatting / correctly rounded parsing that are "
+         "kept OPEN (checked in-kernel on 160 doubles and against the real std on every run); float spellings are one Number token given a third such statement. Tied to /repo by a 3-way "
+         "differential (impl / extracted model / vm_compute) over palettes x radices.",
     design="DESIGN.md section 5 C16",
-    note="Trusted: Coq kernel, the hand-written model (sampling correspondence), std's float formatting and parsing "
-         "(specified, not verified: the model is the function Grisu/Dragon and dec2flt are specified to compute), "
-         "num-bigint as Z, extraction+OCaml driver (cross-checked in-kernel), Rust harness, Python oracle. Axioms: the "
-         "standard library real-number axioms (sig_forall_dec, sig_not_dec, functional_extensionality_dep, classic) "
-         "through Flocq, because the statements mention binary64 operations.",
-    technique="Rocq/Coq proof (induction over digit strings, Flocq for binary64) + model/implementation correspondence check")
+    note="OPEN (stated as Definitions in Props/C16.v, hypotheses of C16_float_roundtrip / C16_float_literal): "
+         "C16_std_roundtrip_stmt (dec2flt (display x) = x on the std specification), C16_display_point_stmt and "
+         "C16_no_inner_minus_stmt; each is decidable per double and checked in-kernel on 160 doubles. Trusted: Coq kernel, the hand-written model (sampling correspondence), std's float formatting "
+         "and parsing (specified, not verified: Model/F64Fmt.v is the function Grisu/Dragon and dec2flt are specified to "
+         "compute), num-bigint as Z, extraction+OCaml driver (cross-checked in-kernel), Rust harness, Python oracle. "
+         "Axioms: the standard library real-number axioms (sig_forall_dec, sig_not_dec, functional_extensionality_dep, "
+         "classic) through Flocq, because the statements mention binary64 operations; the digit-string theorems are closed.",
+    technique="Rocq/Coq proof (induction over digit strings and token scans, Flocq for binary64) + model/implementation correspondence check")
 
 I64_MIN, I64_MAX = -2**63, 2**63 - 1
 I32_MIN, I32_MAX = -2**31, 2**31 - 1
@@ -605,7 +610,7 @@ def reductions(case):
         if z[0] in ("fix", "big"):
             v = z[1]
             enc = fix if z[0] == "fix" else big
-            for c in (v // 2, v // 10, -(-v // 2), v + 1 if v < 0 else v - 1, -1 if v < 0 else 1):
+            for c in (-1 if v < 0 else 1, -(abs(v) >> 64) if v < 0 else v >> 64, -(abs(v) >> 8) if v < 0 else v >> 8, v // 2, -(-v // 2), v + 1 if v < 0 else v - 1):
                 if c != v and (z[0] == "big" or I64_MIN <= c <= I64_MAX):
                     yield head + enc(c)
         elif z[0] == "rat":
